@@ -338,9 +338,121 @@ func existsStrictness(c *h.Ctx) {
 	}
 }
 
+// existsSelective: exists(e) is true when e selects an item and raises no
+// error - whichever item e visited last (an operand that keeps an earlier
+// item and rejects the last one is not empty).
+func existsSelective(c *h.Ctx) {
+	k := 0
+	for n := 1; n <= 4; n++ {
+		for mask := 0; mask < 1<<n; mask++ {
+			els := make([]string, n)
+			members := make([]string, n)
+			any := false
+			for i := range els {
+				els[i] = "0"
+				if mask&(1<<i) != 0 {
+					els[i] = "5"
+					any = true
+				}
+				members[i] = fmt.Sprintf(`"m%d":%s`, i, els[i])
+			}
+			docs := map[string]string{"arr": `{"k":[` + strings.Join(els, ",") + `]}`, "obj": `{"k":{` + strings.Join(members, ",") + `}}`}
+			for _, f := range []struct{ path, doc string }{
+				{"exists($.k[0 to last] ? (@ > 1))", "arr"}, {"exists($.k[*] ? (@ > 1))", "arr"}, {"exists($.k[0 to last] ? (@ > 1)) || 1 == 2", "arr"}, {"!(exists($.k[0 to last] ? (@ > 1)))", "arr"},
+				{"$ ? (exists(@.k[0 to last] ? (@ > 1)))", "arr"}, {"exists($.k.keyvalue() ? (@.value > 1))", "obj"}, {"exists($.k.* ? (@ > 1))", "obj"}, {"exists($.k.**{1} ? (@ > 1))", "obj"},
+				{"exists($.k.**{0 to 1} ? (@.type() == \"object\"))", "obj"}, {"exists($.k.keyvalue().value ? (@ > 1)) && 1 == 1", "obj"},
+			} {
+				for _, mode := range []string{"", "strict "} {
+					k++
+					if !c.Mine(k) {
+						continue
+					}
+					p := cachedPath(mode + f.path)
+					if p == nil {
+						c.Count("gen.unparsable", 1)
+						continue
+					}
+					o := h.Call("query", p, h.Decode(docs[f.doc], k%2 == 0), h.Opts{})
+					c.Eval(1)
+					c.Distinct("exists-selective", mode+f.path, docs[f.doc])
+					truth := any
+					if strings.Contains(f.path, "object") {
+						truth = true // the object itself (level 0)
+					}
+					var want string
+					switch {
+					case strings.HasPrefix(f.path, "$ ?"):
+						want = "[]"
+						if truth {
+							want = "[" + h.Canon(h.Decode(docs[f.doc], k%2 == 0)) + "]"
+						}
+					case strings.HasPrefix(f.path, "!"):
+						want = fmt.Sprintf("[%v]", !truth)
+					default:
+						want = fmt.Sprintf("[%v]", truth)
+					}
+					got := o.Class + ":" + o.ErrText()
+					if o.Class == h.OK {
+						got = h.CanonList(o.Items)
+					}
+					if got != want {
+						c.Violate("exists", h.F("form", "selective", "mode", mode), fmt.Sprintf("Query(%s) on %s = %s; want %s (the operand selects an item: %v)", mode+f.path, docs[f.doc], o.Summary(), want, truth), h.Case{Kind: "exists-selective", Path: mode + f.path, Doc: docs[f.doc]})
+					} else {
+						c.Held("exists")
+					}
+				}
+			}
+		}
+	}
+}
+
+// connectivesOverManyItems: the outcome of && / || for an item does not depend
+// on how many items came before it (thousands of short-circuits in one run).
+func connectivesOverManyItems(c *h.Ctx) {
+	for li, n := range []int{600, 1500, 5000} {
+		if !c.Mine(li) {
+			continue
+		}
+		arr := make([]any, n)
+		for i := range arr {
+			arr[i] = float64(i)
+		}
+		for _, f := range []struct {
+			path string
+			want []int
+		}{
+			{fmt.Sprintf("$[*] ? (@ >= %d && @ < 1000000)", n-1), []int{n - 1}},
+			{fmt.Sprintf("$[*] ? (@ < %d || @ == %d)", 1, n-1), []int{0, n - 1}},
+			{fmt.Sprintf("$[*] ? (!(@ < %d) && (@ >= %d || @ == 0))", n-2, n-1), []int{n - 1}},
+			{fmt.Sprintf("$[*] ? ((@ >= %d && @ < 1000000) is unknown)", n-1), nil},
+			{fmt.Sprintf("strict $[*] ? (@ >= %d && @.type() == \"number\" || @ == 1 && @ > 0)", n-1), []int{1, n - 1}},
+		} {
+			p := cachedPath(f.path)
+			if p == nil {
+				c.Count("gen.unparsable", 1)
+				continue
+			}
+			o := h.Call("query", p, arr, h.Opts{})
+			c.Eval(1)
+			c.Distinct("many-items", f.path)
+			want := make([]any, len(f.want))
+			for i, w := range f.want {
+				want[i] = float64(w)
+			}
+			if o.Class != h.OK || h.CanonList(o.Items) != h.CanonList(want) {
+				c.Violate("law.filter.meet", h.F("form", "many-items"), fmt.Sprintf("Query(%s) on [0..%d] = %s; want %s", f.path, n-1, o.Summary(), h.CanonList(want)), h.Case{Kind: "many-items", Path: f.path, Extra: map[string]string{"n": fmt.Sprint(n)}})
+			} else {
+				c.Held("law.filter.meet")
+			}
+		}
+	}
+}
+
 func runC11(c *h.Ctx) {
 	runTables(c)
 	existsStrictness(c)
+	existsSelective(c)
+	connectivesOverManyItems(c)
 	// random laws
 	r := c.Rand("c11")
 	g := &gen.G{R: r, C: gen.DefaultCfg()}
